@@ -189,6 +189,23 @@ class Adapter:
         self.mono0 = w.mono
         self.proc = w.spawn(PID, comm=b"burn", ppid=1, start=7)
         self.sync()
+        # the model's threads exist from the start, so that no thread identifier of a
+        # by-stander (below) is ever handed on to one of them
+        for t in ("t2", "t3"):
+            self.threads[t] = ModelThread(t)
+
+    def bystander(self):
+        """Another thread of the program samples all four forms and exits.  Each calling thread is
+        measured against its own previous sample: nothing changes for the model's threads."""
+        ps = self.ps
+
+        def body():
+            for per in (False, True):
+                ps.cpu_percent(interval=None, percpu=per)
+                ps.cpu_times_percent(interval=None, percpu=per)
+        th = threading.Thread(target=body, name="bystander")
+        th.start()
+        th.join()
 
     # -- kernel ---------------------------------------------------------
     def sync(self):
@@ -311,6 +328,8 @@ class Adapter:
 
     def do_call(self, e):
         ps = self.ps
+        if self.nstep % 3 == 1:
+            self.bystander()
         fn = ps.cpu_percent if e["fn"] == "cp" else ps.cpu_times_percent
         name = fn.__name__
         per = e["form"] == "per"
